@@ -17,7 +17,7 @@ RULE = ('(a) Simulated read pairs (genome 3..8 kb, coverage 10..80, error rate 0
         'k-mers, rows numbered 1.., cutoff = smallest i>=1 with w0*Pois(i;1) < (1-w0)*Pois(i;c) at the fitted (w0,c) read '
         'through the hook accessor (capped at the table length), labels Error below the cutoff and Coverage from it on, '
         'mixture density column = w0*Pois(i;1)+(1-w0)*Pois(i;c) (independent Python implementation with lgamma).  '
-        '(b) Likelihood/gradient identity through the hooked functions: grad_ll against central differences of the hooked '
+        '(a2) Fault injection on the input: a read file with one malformed record or a gzip stream cut in its middle is either refused or tabulated exactly over its well-formed records.  (b) Likelihood/gradient identity through the hooked functions: grad_ll against central differences of the hooked '
         'log_likelihood and log_likelihood against the Python mixture, on grid and random points 0<w0<1, 1<=c<=200 with real '
         'and synthetic histograms (including the test suite\'s), three histograms of different lengths per process (short, long, in between).  (c) find_cutoff against the definition on random parameters.  (d) Given histograms (through the hook constructor and the real fit_histogram) whose last bin with >= 50 k-mers holds exactly 50 / 49 / 51, with interior bins below 50: truncation rule, cutoff and labels.  '
         'Non-trivial (a): the fit converged and the table has both labels; (b): a parameter point; distinct = distinct inputs.')
@@ -26,7 +26,7 @@ ASSUMPTIONS = ['when the optimiser does not converge (possible at 0% error) coun
                'numerical gradient: central differences, relative tolerance 1e-4; decisive comparisons closer than 1e-9 are skipped']
 REQUIRED = {t: ['readsets_counting_judged', 'readsets_cutoff_judged', 'rows_compared', 'labels_checked', 'gradient_points',
                 'likelihood_points', 'cutoff_points', 'cli_runs', 'truncation_cases', 'truncation_exactly_50',
-                'readsets_with_kmers_seen_over_1000_times', 'likelihood_points_on_later_histograms_of_a_process'] for t in ('quick', 'thorough')}
+                'readsets_with_kmers_seen_over_1000_times', 'likelihood_points_on_later_histograms_of_a_process', 'damaged_input_refused'] for t in ('quick', 'thorough')}
 
 SUITE_COUNTS = [44633459, 950672, 104410, 44137, 24170, 21232, 21699, 24145, 30696, 39210, 49878, 63683, 77690, 95147,
                 112416, 130307, 146531, 160932, 175130, 185113, 193149, 197468, 199189, 198235, 192150, 185565, 176362,
@@ -46,6 +46,9 @@ def plan(tier, seed, rng, scale):
     for i in range(n):
         k = rng.choice([9, 15, 21, 31, 33, 41, 63]) if rng.random() < 0.5 else rng.choice(G.ALL_K[2:])
         descs.append({'kind': 'reads', 'k': k, 'rc': rng.random() < 0.7, 'seed': rng.getrandbits(32)})
+    for i in range(int((12 if tier == 'quick' else 120) * scale)):
+        descs.append({'kind': 'damaged', 'k': rng.choice([15, 21, 31, 33]), 'rc': rng.random() < 0.7, 'seed': rng.getrandbits(32),
+                      'damage': ['length-mismatch', 'missing-plus', 'cut-gzip'][i % 3]})
     m = int((60 if tier == 'quick' else 600) * scale)
     for i in range(m):
         descs.append({'kind': 'grad', 'seed': rng.getrandbits(32), 'suite': i == 0})
@@ -431,8 +434,67 @@ def run_trunc(desc, ctx, res):
     res.nontrivial.append(fingerprint(['trunc', desc['seed']]))
 
 
+def run_damaged(desc, ctx, res):
+    """One malformed record (or a cut gzip stream) in the middle of a read file: `ska cov` either refuses or tabulates the exact
+    multiplicities over every well-formed record; a table over the reads before the damage only is a silent loss."""
+    import gzip
+    k, rcmode = desc['k'], desc['rc']
+    rng = random.Random(desc['seed'])
+    reads, params = sim_reads(rng)
+    which = rng.randrange(2)
+    kind = desc['damage']
+    recs = [['@r%d' % i, s_, '+', 'I' * len(s_)] for i, s_ in enumerate(reads[which])]
+    bad = rng.randint(len(recs) // 4, max(len(recs) // 4, 3 * len(recs) // 4))
+    wellformed = None
+    if kind == 'length-mismatch':
+        recs[bad][3] = recs[bad][3][:-1]
+        wellformed = reads[which][:bad] + reads[which][bad + 1:]
+        data = ''.join('\n'.join(r) + '\n' for r in recs).encode()
+        name = 'd.fastq'
+    elif kind == 'missing-plus':
+        recs[bad][2] = ''
+        wellformed = reads[which][:bad] + reads[which][bad + 1:]
+        data = ''.join('\n'.join(r) + '\n' for r in recs).encode()
+        name = 'd.fastq'
+    else:
+        raw = gzip.compress(''.join('\n'.join(r) + '\n' for r in recs).encode())
+        data = raw[:len(raw) * rng.randint(30, 80) // 100]
+        name = 'd.fastq.gz'
+    ctx.write(name, data)
+    ctx.write('o.fastq', ''.join('@r%d\n%s\n+\n%s\n' % (i, s_, 'I' * len(s_)) for i, s_ in enumerate(reads[1 - which])))
+    pair = [ctx.path(name), ctx.path('o.fastq')] if which == 0 else [ctx.path('o.fastq'), ctx.path(name)]
+    a = ctx.sh(ctx.ska, 'cov', *pair, '-k', k, *G.strand_flag(rcmode), timeout=600)
+    res.evals += 1
+    detail = dict(params, k=k, rc=rcmode, seed=desc['seed'], damage=kind, damaged_record=bad, damaged_file=which)
+    if a.returncode != 0:
+        res.count('damaged_input_refused')
+        res.nontrivial.append(fingerprint(['damaged', desc['seed']]))
+        return
+    if wellformed is None:
+        res.violate('C20:damaged:%s:accepted' % kind, 'k=%d: a read file cut in the middle of its gzip stream was accepted with exit 0' % k, detail)
+        return
+    cnt = count_split_kmers(wellformed + reads[1 - which], k, rcmode)
+    hist = {}
+    for v in cnt.values():
+        hist[v] = hist.get(v, 0) + 1
+    mx = max([m for m, v in hist.items() if v >= 50 and m <= 1000], default=0)
+    exp_counts = [hist.get(m, 0) for m in range(1, mx + 1)]
+    rows = [l.split('\t') for l in a.stdout.split('\n')[1:] if l]
+    got = [int(r[1]) for r in rows]
+    if got != exp_counts:
+        d = [(i + 1, g, e) for i, (g, e) in enumerate(zip(got, exp_counts)) if g != e][:4]
+        res.violate('C20:damaged:%s:table' % kind, 'k=%d rc=%s: a read file with one malformed record (%s) was accepted with exit 0 and the table (%d rows) is not the exact '
+                    'count over the well-formed records (%d rows); (count, printed, exact): %s' % (k, rcmode, kind, len(got), len(exp_counts), d), detail)
+    else:
+        res.count('damaged_input_accepted_exact')
+        res.nontrivial.append(fingerprint(['damaged', desc['seed']]))
+
+
 def run_case(desc, ctx):
     res = Result()
+    if desc['kind'] == 'damaged':
+        run_damaged(desc, ctx, res)
+        return res
     if desc['kind'] == 'trunc':
         run_trunc(desc, ctx, res)
         return res
